@@ -4,8 +4,9 @@
    monitor: Model/MsgStore_C07.v (one plain list of rows + log end per channel).
    All theorems hold for EVERY implementation of the negative membership filter
    (F, f_empty, f_may, f_add arbitrary, no soundness needed here), for histories
-   of any length over the harness' channels; the multi-channel StoreAppendBatch
-   op is excluded ([op_ok]). *)
+   of any length over the harness' channels ([op_okb]), INCLUDING the multi-channel
+   StoreAppendBatch (one physical batch in channel order refines the item-by-item
+   specification because appends to different channels commute). *)
 From WK Require Import Base.Base Model.KV Gen.Consts_C07 Model.MsgStore Model.MsgStore_C07
      Proof.KV Proof.MsgStore_base Proof.MsgStore_rel Proof.MsgStore_reads Proof.MsgStore_C07.
 
@@ -16,7 +17,7 @@ From WK Require Import Base.Base Model.KV Gen.Consts_C07 Model.MsgStore Model.Ms
 Theorem c07_refines :
   forall (F : Type) (f_empty : F) (f_may : F -> bytes * bytes -> bool) (f_add : F -> bytes * bytes -> F)
          (compact : bool) (st : mstate F) (s : aspec) (o : op),
-    R F st s -> op_ok o ->
+    R F st s -> op_okb o ->
     let '(st', x, ds) := step_dump F f_empty f_may f_add compact st o in
     exists s', spec_step s (E o x ds) = Some s' /\ R F st' s'.
 Proof. exact step_sim. Qed.
@@ -28,7 +29,7 @@ Print Assumptions c07_refines.
 Theorem c07_model_satisfies_monitor :
   forall (F : Type) (f_empty : F) (f_may : F -> bytes * bytes -> bool) (f_add : F -> bytes * bytes -> F)
          (compact : bool) (ops : list op),
-    Forall op_ok ops ->
+    Forall op_okb ops ->
     spec_run as_init (entries ops (snd (run F f_empty f_may f_add compact (st_init F f_empty) ops))) = true.
 Proof. exact model_satisfies_monitor. Qed.
 Print Assumptions c07_model_satisfies_monitor.
@@ -36,7 +37,7 @@ Print Assumptions c07_model_satisfies_monitor.
 (* ... in particular for the executable instance used by the correspondence check *)
 Theorem c07_monitor_zero_on_model :
   forall (compact : bool) (ops : list op) (kv : list kvent),
-    Forall op_ok ops ->
+    Forall op_okb ops ->
     C07_monitor (C07Case compact (entries ops (snd (xrun compact ops))) kv) = 0.
 Proof. exact monitor_zero_on_model. Qed.
 Print Assumptions c07_monitor_zero_on_model.
@@ -70,7 +71,7 @@ Print Assumptions c07_reopen_id.
 Theorem c07_reachable :
   forall (F : Type) (f_empty : F) (f_may : F -> bytes * bytes -> bool) (f_add : F -> bytes * bytes -> F)
          (compact : bool) (ops : list op),
-    Forall op_ok ops ->
+    Forall op_okb ops ->
     exists s, R F (fst (run F f_empty f_may f_add compact (st_init F f_empty) ops)) s.
 Proof. exact reachable_R. Qed.
 Print Assumptions c07_reachable.
@@ -112,8 +113,8 @@ Definition ex_ops : list op :=
     OIdem 0 (hx "7531") (hx "6e31"); OById 0 2; OByCno 0 (hx "6e32") 0 5%Z; OLastS 0 (hx "7532") 9;
     OCApp 1 1 [ex_rec 9 "7533" "6e39"]; OCTrunc 1 0; ORelease 0; OHist 0; OLoadCk 0 ].
 
-Example c07_ex_ops_ok : Forall op_ok ex_ops.
-Proof. repeat (constructor; [split; [cbn; tauto|exact I]|]). constructor. Qed.
+Example c07_ex_ops_ok : Forall op_okb ex_ops.
+Proof. repeat (constructor; [cbn; tauto|]). constructor. Qed.
 
 (* the model does something on it: 3 rows stored, the duplicate rejected, the
    trim deletes row 1, the truncation row 4; after reopen LEO = 3 and rows 2, 3 remain *)
@@ -140,4 +141,19 @@ Proof. vm_compute. reflexivity. Qed.
 Example c07_monitor_rejects_unreadable_row :
   C07_monitor (C07Case false
     [E (OAppend 0 0 0 [MsgStore.R 5 [] [] [] 7%Z 0 0 0]) (XApp 1 1 1) [D 0 (inl 1) (inr ECorruptState) (inr ECorruptState)]] []) = 1.
+Proof. vm_compute. reflexivity. Qed.
+
+(* the multi-channel StoreAppendBatch is inside the theorems: a batch over two
+   channels plus a duplicated channel (rejected item), then reads of both logs *)
+Definition ex_batch_ops : list op :=
+  [ OCBatch [(0, 0, [ex_rec 1 "7531" "6e31"; ex_rec 2 "" ""]); (2, 1, [ex_rec 3 "7531" "6e31"]); (1, 0, [])];
+    OCBatch [(2, 0, [ex_rec 4 "" ""]); (2, 0, [ex_rec 5 "" ""]); (0, 0, [ex_rec 6 "" ""])];
+    OLeo 0; OLeo 2 ].
+
+Example c07_ex_batch_ok : Forall op_okb ex_batch_ops.
+Proof. repeat (constructor; [cbn; try tauto; repeat (constructor; [cbn; tauto|]); constructor|]). constructor. Qed.
+
+Example c07_ex_batch_run :
+  map fst (snd (xrun true ex_batch_ops)) =
+  [ XBatch [(0, 0, 2); (0, 0, 1); (0, 0, 0)]; XBatch [(EInvalid, 0, 0); (EInvalid, 0, 0); (0, 2, 3)]; XN 3; XN 1 ].
 Proof. vm_compute. reflexivity. Qed.
